@@ -642,5 +642,5 @@ pub fn run(ctx: &Ctx) -> i32 {
 }
 
 pub fn filter(k: &str) -> bool {
-    k.contains(".bounds") || k.starts_with("theta.exact_mode") || k.starts_with("theta.estimate") || k.starts_with("theta.empty_after_screened") || k.starts_with("union.zero_estimate") || k.starts_with("panic|")
+    k.contains(".bounds") || k.starts_with("theta.exact_mode") || k.starts_with("theta.estimate") || k.starts_with("theta.empty_after_screened") || k.starts_with("union.zero_estimate") || k.starts_with("union.type_dependent") || k.starts_with("hll.types_disagree") || k.starts_with("panic|")
 }
